@@ -140,7 +140,7 @@ def main():
             "guard": "cargo feature jeltef_derive_more_verif (impl/Cargo.toml), cfg(feature = \"jeltef_derive_more_verif\")",
             "enable": "the harness crate /verif/harness/inproc includes /repo/impl/src/*.rs by #[path] and enables its own feature of the same name; scratch crates using the real proc-macro are built with the guard off",
             "baseline_off_cmd": "cd /repo && cargo test --workspace --no-fail-fast --offline",
-            "source_commits": ["33650de", "d9d3f1d", "8e51434", "f6dbb76"],
+            "source_commits": ["33650de", "d9d3f1d", "8e51434", "f6dbb76", "071c9da", "2dfdf22"],
             "add_only": True,
         },
         "engines": [
